@@ -385,3 +385,210 @@ func resolveCopies(info *types.Info, body ast.Node, e ast.Expr) ast.Expr {
 	}
 	return e
 }
+
+// loopOverFieldAround returns the loop enclosing n that traverses owner.field -
+// `for .. range x.field` or `for i := 0; i < len(x.field); i++` - or nil.
+func loopOverFieldAround(info *types.Info, body ast.Node, n ast.Node, owner, field string) ast.Stmt {
+	var res ast.Stmt
+	for _, anc := range enclosing(body, n) {
+		switch l := anc.(type) {
+		case *ast.RangeStmt:
+			if isField(info, l.X, owner, field) {
+				res = l
+			}
+		case *ast.ForStmt:
+			if l.Cond != nil {
+				ast.Inspect(l.Cond, func(y ast.Node) bool {
+					if ce, ok := y.(*ast.CallExpr); ok && calleeBuiltin(info, ce) == "len" && len(ce.Args) == 1 && isField(info, ce.Args[0], owner, field) {
+						res = l
+					}
+					return true
+				})
+			}
+		}
+	}
+	return res
+}
+
+// builtObj is one construction of a struct value of a given named type: either a keyed composite
+// literal, or a variable that starts empty (`new(T)`, `&T{}`, `T{}`, `var v T`) and is filled by
+// `v.F = e` stores.  Vals maps field names to the expressions stored (literal elements and later stores).
+type builtObj struct {
+	Var  *types.Var // nil for a literal that is not bound to a variable
+	Lit  *ast.CompositeLit
+	Pos  token.Pos
+	Vals map[string]ast.Expr
+	at   ast.Node // the defining AssignStmt / ValueSpec
+}
+
+func builtObjects(info *types.Info, body ast.Node, typeName string) []builtObj {
+	isT := func(t types.Type) bool {
+		nt := namedOf(t)
+		return nt != nil && nt.Obj().Name() == typeName
+	}
+	var out []builtObj
+	byVar := map[*types.Var]int{}
+	litOwner := map[*ast.CompositeLit]bool{}
+	var addAt ast.Node
+	add := func(v *types.Var, lit *ast.CompositeLit, pos token.Pos) {
+		bo := builtObj{Var: v, Lit: lit, Pos: pos, Vals: map[string]ast.Expr{}, at: addAt}
+		if lit != nil {
+			litOwner[lit] = true
+			for _, el := range lit.Elts {
+				if kv, ok := el.(*ast.KeyValueExpr); ok {
+					if id, ok := kv.Key.(*ast.Ident); ok {
+						bo.Vals[id.Name] = kv.Value
+					}
+				}
+			}
+		}
+		if v != nil {
+			byVar[v] = len(out)
+		}
+		out = append(out, bo)
+	}
+	fresh := func(e ast.Expr) (*ast.CompositeLit, bool) {
+		e = ast.Unparen(e)
+		if u, ok := e.(*ast.UnaryExpr); ok && u.Op == token.AND {
+			e = ast.Unparen(u.X)
+		}
+		if cl, ok := e.(*ast.CompositeLit); ok && isT(info.TypeOf(cl)) {
+			return cl, true
+		}
+		if c, ok := e.(*ast.CallExpr); ok && calleeBuiltin(info, c) == "new" && len(c.Args) == 1 && isT(info.TypeOf(c.Args[0])) {
+			return nil, true
+		}
+		return nil, false
+	}
+	ast.Inspect(body, func(n ast.Node) bool {
+		switch y := n.(type) {
+		case *ast.AssignStmt:
+			addAt = y
+			if len(y.Lhs) == len(y.Rhs) {
+				for i := range y.Rhs {
+					if cl, ok := fresh(y.Rhs[i]); ok {
+						if id, isId := y.Lhs[i].(*ast.Ident); isId {
+							if v, isV := info.ObjectOf(id).(*types.Var); isV {
+								add(v, cl, y.Pos())
+							}
+						}
+					}
+				}
+			}
+		case *ast.ValueSpec:
+			addAt = y
+			for i, nm := range y.Names {
+				v, _ := info.Defs[nm].(*types.Var)
+				if v == nil {
+					continue
+				}
+				if i < len(y.Values) {
+					if cl, ok := fresh(y.Values[i]); ok {
+						add(v, cl, y.Pos())
+					}
+				} else if len(y.Values) == 0 && isT(v.Type()) {
+					if _, isPtr := v.Type().(*types.Pointer); !isPtr {
+						add(v, nil, y.Pos())
+					}
+				}
+			}
+		}
+		return true
+	})
+	// literals not bound to a variable (arguments, appended elements, returned values)
+	ast.Inspect(body, func(n ast.Node) bool {
+		if cl, ok := n.(*ast.CompositeLit); ok && !litOwner[cl] && isT(info.TypeOf(cl)) {
+			add(nil, cl, cl.Pos())
+		}
+		return true
+	})
+	// field stores: attributed to the construction of that variable that precedes them in the same
+	// (or an enclosing) statement list - one variable may be constructed several times (expanded helpers)
+	consAt := map[ast.Node]int{} // construction statement -> index in out
+	for k, bo := range out {
+		if bo.Var == nil || bo.at == nil {
+			continue
+		}
+		switch y := bo.at.(type) {
+		case *ast.AssignStmt:
+			consAt[y] = k
+		case *ast.ValueSpec:
+			ast.Inspect(body, func(n ast.Node) bool {
+				if ds, ok := n.(*ast.DeclStmt); ok {
+					if gd, ok := ds.Decl.(*ast.GenDecl); ok {
+						for _, sp := range gd.Specs {
+							if sp == ast.Spec(y) {
+								consAt[ds] = k
+							}
+						}
+					}
+				}
+				return true
+			})
+		}
+	}
+	var walkList func(list []ast.Stmt, cur map[*types.Var]int)
+	var walkStmt func(st ast.Stmt, cur map[*types.Var]int)
+	walkList = func(list []ast.Stmt, cur map[*types.Var]int) {
+		local := map[*types.Var]int{}
+		for k, v := range cur {
+			local[k] = v
+		}
+		for _, st := range list {
+			if k, ok := consAt[st]; ok {
+				local[out[k].Var] = k
+				continue
+			}
+			if as, ok := st.(*ast.AssignStmt); ok && len(as.Lhs) == len(as.Rhs) {
+				for i, l := range as.Lhs {
+					sel, ok := ast.Unparen(l).(*ast.SelectorExpr)
+					if !ok {
+						continue
+					}
+					v, _ := objOf(info, sel.X).(*types.Var)
+					if v == nil {
+						continue
+					}
+					if k, has := local[v]; has {
+						if _, dup := out[k].Vals[sel.Sel.Name]; !dup {
+							out[k].Vals[sel.Sel.Name] = as.Rhs[i]
+						}
+					}
+				}
+				continue
+			}
+			walkStmt(st, local)
+		}
+	}
+	walkStmt = func(st ast.Stmt, cur map[*types.Var]int) {
+		ast.Inspect(st, func(n ast.Node) bool {
+			if n == ast.Node(st) {
+				return true
+			}
+			switch y := n.(type) {
+			case *ast.BlockStmt:
+				walkList(y.List, cur)
+				return false
+			case *ast.CaseClause:
+				walkList(y.Body, cur)
+				return false
+			case *ast.CommClause:
+				walkList(y.Body, cur)
+				return false
+			}
+			return true
+		})
+	}
+	if b, ok := body.(*ast.BlockStmt); ok {
+		walkList(b.List, map[*types.Var]int{})
+	} else {
+		ast.Inspect(body, func(n ast.Node) bool {
+			if b, ok := n.(*ast.BlockStmt); ok {
+				walkList(b.List, map[*types.Var]int{})
+				return false
+			}
+			return true
+		})
+	}
+	return out
+}
